@@ -59,7 +59,7 @@ def report(res, r, e, o):
     else:
         # model and code disagree: the model no longer describes the code on this input
         key = '%s:%s' % (verb, ' '.join(parts[1:])[:60])
-        prop_violation = verb in ('hdr-dec', 'hdr-enc', 'hdr-write', 'isvalid', 'newinstance')
+        prop_violation = verb in ('hdr-dec', 'hdr-enc', 'hdr-write', 'isvalid', 'newinstance', 'ctor-accepts')
         res.violation(key, '%s: code gives %r, model (proved to have the property) gives %r' % (r, o, e), 'input' if prop_violation else 'correspondence',
                       prop_violation, case=[r], expected=[e], observed=[o])
 
